@@ -847,6 +847,106 @@ func c09Outcomes(c *enumx.Ctx) {
 	c.Sample("CONFIG_CHANGE op=add_rule res=0 + SYSCALL(sendto) success=yes => both outcomes are in the event")
 }
 
+// (l) values of different fields / records that are RELATED the way real ones are (unique tags never are): the process
+// title a prefix of the EXECVE arguments joined by blanks (the kernel cuts titles), comm the first 1..16 bytes of the
+// executable's file name (the kernel cuts comm at 15), a PATH name equal to / below / relative to the cwd, exe equal to a
+// PATH name: every record's value is still in the event as the record gave it.
+func c09Relations(c *enumx.Ctx) {
+	run := func(desc string, rs []recDesc) {
+		c.Begin(func() string { return desc })
+		c.Try(tryProp(), func() {
+			msgs, ok := parseAll(c, rs)
+			if !ok {
+				return
+			}
+			ev, err := coalesce(c, msgs)
+			if oracleC15 {
+				return
+			}
+			if err != nil || ev == nil {
+				c.Report("C09 coalesce-error", fmt.Sprintf("%s: (%v, %v)", desc, ev, err), nil)
+				return
+			}
+			a := identity(c, "C09", msgs[0], ev, desc)
+			b := containment(c, "C09", rs, ev, desc)
+			if a && b {
+				c.Nontrivial()
+			}
+		})
+	}
+	sysRec := func(t *tagger, nr int, comm, exe string) recDesc {
+		return recDesc{"SYSCALL", fmt.Sprintf("arch=c000003e syscall=%d success=yes exit=0 a0=%s a1=%s a2=%s a3=%s items=2 ppid=%s pid=%s auid=%s uid=%s gid=%s euid=%s suid=%s fsuid=%s egid=%s sgid=%s fsgid=%s tty=pts0 ses=%s comm=\"%s\" exe=\"%s\" subj=%s:%s:%s:s0 key=\"%s\"",
+			nr, t.v(), t.v(), t.v(), t.v(), t.v(), t.v(), t.v(), t.v(), t.v(), t.v(), t.v(), t.v(), t.v(), t.v(), t.v(), t.v(), comm, exe, t.v(), t.v(), t.v(), t.v())}
+	}
+	// comm vs exe
+	base := "systemd-journald-helper-x"
+	for n := 1; n <= len(base); n++ {
+		for _, dir := range []string{"/usr/lib/systemd/", "/", "/opt/a b/"} {
+			for _, single := range []bool{false, true} {
+				if !c.Mine() {
+					continue
+				}
+				if strings.Contains(dir, " ") {
+					continue // a quoted exe cannot hold a blank; the hex form is covered by c09-names
+				}
+				t := &tagger{numeric: n%2 == 1}
+				sc := sysRec(t, 2, base[:n], dir+base)
+				rs := []recDesc{sc, {"CWD", "cwd=\"/" + t.v() + "\""}}
+				if single {
+					rs = rs[:1]
+				}
+				run(fmt.Sprintf("comm = the first %d bytes of the executable's file name %q (single record: %v)", n, dir+base, single), rs)
+			}
+		}
+	}
+	// proctitle vs EXECVE arguments
+	args := []string{"/usr/bin/python3", "-m", "http.server", "--bind", "127.0.0.1"}
+	joined := strings.Join(args, " ")
+	var titles []string
+	for k := 1; k <= len(joined); k++ {
+		titles = append(titles, joined[:k])
+	}
+	titles = append(titles, joined+" 8080", "python3", strings.Join(args, "\x00"), strings.Join(args[:3], "\x00"))
+	for ti, title := range titles {
+		for _, order := range []int{0, 1, 2} {
+			if !c.Mine() {
+				continue
+			}
+			t := &tagger{}
+			sc := sysRec(t, 59, "python3", "/usr/bin/python3")
+			ex := "argc=" + strconv.Itoa(len(args))
+			for i, a := range args {
+				ex += fmt.Sprintf(" a%d=\"%s\"", i, a)
+			}
+			pt := recDesc{"PROCTITLE", "proctitle=" + strings.ToUpper(hex.EncodeToString([]byte(title)))}
+			if !strings.ContainsAny(title, " \x00") {
+				pt = recDesc{"PROCTITLE", "proctitle=\"" + title + "\""}
+			}
+			rs := []recDesc{sc, {"EXECVE", ex}, pt}
+			switch order {
+			case 1:
+				rs = []recDesc{sc, pt, {"EXECVE", ex}}
+			case 2:
+				rs = []recDesc{pt, sc, {"EXECVE", ex}}
+			}
+			run(fmt.Sprintf("EXECVE %q with process title %q (title %d, record order %d)", joined, title, ti, order), rs)
+		}
+	}
+	// PATH names vs cwd vs exe
+	for _, rel := range [][3]string{{"/srv/app", "/srv/app/data.db", "/srv/app/bin/tool"}, {"/srv/app", "data.db", "/srv/app/data.db"}, {"/srv/app", "/srv/app", "/srv/app"}, {"/", "/vmlinuz", "/vmlinuz"}, {"/srv/app", "../app/x", "/srv/app/../app/x"}, {"/srv/app", "/srv/application", "/srv/app2"}} {
+		for _, nr := range []int{2, 59, 87} {
+			if !c.Mine() {
+				continue
+			}
+			t := &tagger{numeric: true}
+			sc := sysRec(t, nr, "tool", rel[2])
+			rs := []recDesc{sc, {"CWD", "cwd=\"" + rel[0] + "\""}, {"PATH", fmt.Sprintf("item=0 name=\"%s\" inode=%s dev=fd:00 mode=0100644 ouid=%s ogid=%s rdev=00:00 nametype=NORMAL", rel[1], t.v(), t.v(), t.v())}, {"PATH", fmt.Sprintf("item=1 name=\"%s\" inode=%s dev=fd:00 mode=0100755 ouid=%s ogid=%s rdev=00:00 nametype=NORMAL", rel[2], t.v(), t.v(), t.v())}}
+			run(fmt.Sprintf("cwd %q, PATH names %q and %q, exe %q, syscall %d", rel[0], rel[1], rel[2], rel[2], nr), rs)
+		}
+	}
+	c.Sample("comm=\"systemd-journal\" exe=\"/usr/lib/systemd/systemd-journald-helper-x\" => comm's own value is in the event")
+}
+
 // (h) a SYSCALL record that LACKS one of its usual fields while another record of the event carries a field of
 // that name (with its own value), and path-shaped values that a "cleaning" step would alter (trailing and
 // doubled slashes, dot components) for cwd / name / exe.
@@ -1024,8 +1124,9 @@ func c09Times(c *enumx.Ctx) {
 func init() {
 	gens["c09-times"] = c09Times
 	gens["c09-outcomes"] = c09Outcomes
+	gens["c09-relations"] = c09Relations
 	gens["c09-missing"] = c09Missing
-	for _, g := range []string{"c09-times", "c09-missing", "c09-modes", "c09-groups", "c09-singles", "c09-repeats", "c09-names", "c09-syscalls", "c09-outcomes"} {
+	for _, g := range []string{"c09-times", "c09-missing", "c09-modes", "c09-groups", "c09-singles", "c09-repeats", "c09-names", "c09-syscalls", "c09-outcomes", "c09-relations"} {
 		g := g
 		gens["c15:"+g] = func(c *enumx.Ctx) {
 			oracleC15 = true
